@@ -696,6 +696,8 @@ fn check_max_directives(doc: &ExecutableDocument, max_directives: usize) -> Serv
         limit_directives: usize,
     ) -> ServerResult<()> {
         for selection in &selection_set.node.items {
+            #[cfg(feature = "verif-hooks")]
+            crate::verif_hooks::work();
             match &selection.node {
                 Selection::Field(field) => {
                     if field.node.directives.len() > limit_directives {
@@ -754,6 +756,8 @@ fn check_recursive_depth(doc: &ExecutableDocument, max_depth: usize) -> ServerRe
         }
 
         for selection in &selection_set.node.items {
+            #[cfg(feature = "verif-hooks")]
+            crate::verif_hooks::work();
             match &selection.node {
                 Selection::Field(field) => {
                     if !field.node.selection_set.node.items.is_empty() {
